@@ -264,6 +264,25 @@ fn main() {
                 check!(ctx, x.to_comp() == y, "to_comp|dna|pairs", "{:?}.to_comp() != {:?}", x, y);
             }
         });
+        // the other per-symbol views of the same tables: conversion of a symbol to an integer is its bit code
+        // (text: its byte), Display of an amino acid is its display character
+        ctx.group("symbol-conversions", |ctx| {
+            for s in Iupac::items() {
+                ctx.eval();
+                check!(ctx, u8::from(s) == s.to_bits(), "u8::from(symbol)|iupac|not-the-code", "u8::from({:?}) = {:#x}, to_bits = {:#x}", s, u8::from(s), s.to_bits());
+            }
+            for s in Amino::items() {
+                ctx.eval();
+                check!(ctx, u8::from(s) == s.to_bits(), "u8::from(symbol)|amino|not-the-code", "u8::from({:?}) = {:#x}, to_bits = {:#x}", s, u8::from(s), s.to_bits());
+                check!(ctx, s.to_string() == s.to_char().to_string() && format!("{s}").len() == 1, "display(symbol)|amino|not-the-character", "Display of {:?} is {:?}, to_char is {:?}", s, s.to_string(), s.to_char());
+            }
+            for b in 0..=255u8 {
+                ctx.eval();
+                let t = Text::try_from_bits(b).expect("text codec takes any byte as bits");
+                check!(ctx, u8::from(t) == b && t.to_bits() == b, "u8::from(symbol)|text|not-the-byte", "u8::from(text symbol {b:#04x}) = {:#04x}", u8::from(t));
+            }
+            cell!(ctx, "symbol-conversions");
+        });
         ctx.note("exhaustive", json!(true));
     });
 }
